@@ -60,11 +60,21 @@ Po2Training(c, ev) ==
      ELSE <<>>
 InDomPo2(c, x) == x[1] # 0 /\ Lead(x) >= -17 /\ Lead(x) <= MaxE(c) + 12 /\ (c.cls = "po2" \/ x[1] > 0)
 
+\* ---------------------------------------------------------------- stochastic_binary, training phase
+\* (alpha None, use_real_sigmoid = False): p = hard_sigmoid(temperature * x); the code is +1 iff p - u >= 0
+\* (sign(0) is mapped to +1), the output is the straight-through value of that code
+SbTraining(c, ev) ==
+  LET p == HardSig(Mul32(c.temp, ev.x))
+      q == IF Less(p, ev.u) THEN -1 ELSE 1
+  IN IF ~(\E k \in {-1, 1} : Eq(ev.y, Ste32(ev.x, <<k, 0>>))) THEN <<"training_output_is_not_a_code">>
+     ELSE IF ~Eq(ev.y, Ste32(ev.x, <<q, 0>>)) THEN <<"code_is_not_sign_of_probability_minus_draw">>
+     ELSE <<>>
 Verdicts(ev) ==
   LET c == Cf[ev.c] IN
   IF ev.ph = 0 THEN (IF Eq(ev.y, ev.yd) THEN <<>> ELSE <<"inference_differs_from_deterministic">>)
   ELSE IF c.fam = "fixed" THEN (IF InDomFixed(c, ev.x) THEN FixedTraining(c, ev) ELSE <<>>)
   ELSE IF c.fam = "po2" THEN (IF InDomPo2(c, ev.x) THEN Po2Training(c, ev) ELSE <<>>)
+  ELSE IF c.fam = "sb" THEN (IF ev.x[1] = 0 \/ Lead(ev.x) > -100 THEN SbTraining(c, ev) ELSE <<>>)
   ELSE <<>>
 Init == i = 1
 Next == /\ i <= Len(Tr)
